@@ -2,19 +2,42 @@
    extracted [Model.dispatch], prints the result in the same syntax. *)
 open Model
 
-let rec pos_of_int (n : int) : positive =
-  if n = 1 then XH
-  else if n land 1 = 0 then XO (pos_of_int (n lsr 1))
-  else XI (pos_of_int (n lsr 1))
+(* arbitrary-size conversion between decimal strings and the extracted binary integers *)
+let z_of_decimal (str : string) : z =
+  let neg = String.length str > 0 && str.[0] = '-' in
+  let digits = Array.of_list (List.map (fun c -> Char.code c - 48)
+                 (List.of_seq (String.to_seq (if neg then String.sub str 1 (String.length str - 1) else str)))) in
+  let n = Array.length digits in
+  let is_zero () = Array.for_all (fun d -> d = 0) digits in
+  (* bits, least significant first *)
+  let bits = ref [] in
+  while not (is_zero ()) do
+    let rem = ref 0 in
+    for i = 0 to n - 1 do
+      let cur = !rem * 10 + digits.(i) in
+      digits.(i) <- cur / 2;
+      rem := cur mod 2
+    done;
+    bits := !rem :: !bits
+  done;
+  (* !bits is most significant first *)
+  match !bits with
+  | [] -> Z0
+  | _ :: rest ->
+      let p = List.fold_left (fun acc b -> if b = 1 then XI acc else XO acc) XH rest in
+      if neg then Zneg p else Zpos p
 
-let z_of_int (n : int) : z =
-  if n = 0 then Z0 else if n > 0 then Zpos (pos_of_int n) else Zneg (pos_of_int (-n))
-
-let rec int_of_pos (p : positive) : int =
-  match p with XH -> 1 | XO q -> 2 * int_of_pos q | XI q -> 2 * int_of_pos q + 1
-
-let int_of_z (x : z) : int =
-  match x with Z0 -> 0 | Zpos p -> int_of_pos p | Zneg p -> - (int_of_pos p)
+let decimal_of_z (x : z) : string =
+  let rec bits_msb p acc = match p with XH -> 1 :: acc | XO q -> bits_msb q (0 :: acc) | XI q -> bits_msb q (1 :: acc) in
+  let to_dec p =
+    let bs = bits_msb p [] in
+    let digits = ref [0] in   (* least significant first *)
+    List.iter (fun b ->
+      let carry = ref b in
+      digits := List.map (fun d -> let v = d * 2 + !carry in carry := v / 10; v mod 10) !digits;
+      if !carry > 0 then digits := !digits @ [!carry]) bs;
+    String.concat "" (List.rev_map string_of_int !digits) in
+  match x with Z0 -> "0" | Zpos p -> to_dec p | Zneg p -> "-" ^ to_dec p
 
 exception Parse of string
 
@@ -42,13 +65,13 @@ let parse (s : string) : sx =
       if s.[!pos] = '-' then incr pos;
       while !pos < n && s.[!pos] >= '0' && s.[!pos] <= '9' do incr pos done;
       if !pos = start then raise (Parse ("bad char at " ^ string_of_int start));
-      I (z_of_int (int_of_string (String.sub s start (!pos - start))))
+      I (z_of_decimal (String.sub s start (!pos - start)))
     end in
   value ()
 
 let rec print (b : Buffer.t) (x : sx) : unit =
   match x with
-  | I z -> Buffer.add_string b (string_of_int (int_of_z z))
+  | I z -> Buffer.add_string b (decimal_of_z z)
   | L l ->
       Buffer.add_char b '[';
       List.iteri (fun i y -> if i > 0 then Buffer.add_char b ','; print b y) l;
